@@ -505,6 +505,8 @@ class Composition:
                 if ev["kind"] in ("get", "put", "get-timeout"):
                     allev.append((model.eval(self.ts[t][k], model_completion=True).as_long(), t, ev["kind"], ev["q"]))
             nxt = log[c] if c < len(log) else None
+            if t == "c" and any(ev["kind"] == "consumer-raises" for ev in log[:c]):
+                out["consumer_raises"] = True
             out["threads"][t] = dict(executed=[list(map(str, d)) for d in evs],
                                      next=(str((nxt["kind"], nxt.get("q"))) if nxt else None))
         allev.sort()
@@ -610,7 +612,11 @@ def replay_schedule(sched, watchdog_s=6.0):
                 for r in pool.imap_unordered(f, range(n)):
                     result["emitted"].append(r)
                     if early is not None and len(result["emitted"]) == early:
+                        if sched.get("consumer_raises"):
+                            raise ConsumerError("the consumer's loop body fails")
                         break
+        except ConsumerError:
+            pass
         except Boom as exc:
             result["raised"] = str(exc)
         result["finished"] = True
